@@ -58,6 +58,16 @@ def coq_parse_case(p, code, tol, repeat=False):
                                      coq_ptable(p['bursts']), vlib.zlist(code))
 
 
+def _outcomes(ctx, name, cases):
+    """distribution of the implementation's outcomes over the cases of a correspondence run (evidence: the generator reaches the
+    accepting paths, not only the error handling)"""
+    dist = {}
+    for _, exp in cases:
+        k = 'parsed' if exp[0] == 0 else ERR_NAME.get(exp[0], str(exp[0]))
+        dist[k] = dist.get(k, 0) + 1
+    ctx.extra.setdefault('outcome_distribution', {})[name] = dist
+
+
 def modelled_MD(p):
     """Manchester tables with exactly one positional middle-timing entry ({'start','stop','bursts'}: the RC6 family): inside the
     model PyIR.Engine.ParseMD.parseMD."""
@@ -87,8 +97,31 @@ def corr_parseMD(ctx, items, name='corr_parseMD'):
         cases.append(('(%s, %s, %s, %s, (%s, %s, %s), %s)' % (
             vlib.z(tol), vlib.zlist(p['lead_in']), vlib.zlist(p['lead_out']), coq_ptable(p['bursts']),
             vlib.z(md['start']), vlib.z(md['stop']), coq_ptable(md['bursts']), vlib.zlist(code)), real_parseMD(p, code, tol)))
+    _outcomes(ctx, name, cases)
     bad = vlib.run_model_cases(ctx, name, 'Require Import PyIR.Base.Result PyIR.Engine.ParseMD.', 'run_parseMD',
                                '(Z * list Z * list Z * list (Z * Z) * (Z * Z * list (Z * Z)) * list Z)', cases, shard=300)
+    if bad is None:
+        return None
+    return [(items[i], cases[i][1], o) for i, o in bad]
+
+
+def modelled_HT(p):
+    """Halfbit pair tables whose middle timings are all (mark, space) tuples: inside the model PyIR.Engine.ParseHT.parseHT."""
+    return p['eclass'] == 'H' and len(p['middle']) >= 1 and all(isinstance(m, tuple) and len(m) == 2 and
+                                                                all(isinstance(x, int) for x in m) for m in p['middle']) \
+        and all(isinstance(b, list) and len(b) == 2 for b in p['bursts'])
+
+
+def corr_parseHT(ctx, items, name='corr_parseHT'):
+    """items: list of (p, code, tol, tag) for protocols with modelled_HT.  Returns disagreements or None."""
+    cases = []
+    for p, code, tol, tag in items:
+        cases.append(('(%s, %s, %s, %s, %s, %s)' % (
+            vlib.z(tol), vlib.zlist(p['lead_in']), vlib.zlist(p['lead_out']), coq_ptable(p['middle']), coq_ptable(p['bursts']),
+            vlib.zlist(code)), real_parseMD(p, code, tol)))
+    _outcomes(ctx, name, cases)
+    bad = vlib.run_model_cases(ctx, name, 'Require Import PyIR.Base.Result PyIR.Engine.ParseHT.', 'run_parseHT',
+                               '(Z * list Z * list Z * list (Z * Z) * list (Z * Z) * list Z)', cases, shard=300)
     if bad is None:
         return None
     return [(items[i], cases[i][1], o) for i, o in bad]
